@@ -82,6 +82,11 @@ type Peer struct {
 	didDisconnect                                                                                int32
 	Lied                                                                                         int32           // served at least one false message
 	barrier                                                                                      <-chan struct{} // when set: the first headers reply waits for it
+
+	// HoldGate, when set, makes the peer sit on the client's version message: it answers with its own
+	// version / verack only once the gate is closed (Held is 1 while a session waits there).
+	HoldGate chan struct{}
+	Held     int32
 }
 
 type session struct {
@@ -155,6 +160,18 @@ func (p *Peer) Serve(conn net.Conn) {
 	theirs, ok := m.(*wire.MsgVersion)
 	if !ok {
 		return
+	}
+	if p.HoldGate != nil {
+		atomic.StoreInt32(&p.Held, 1)
+		select {
+		case <-p.HoldGate:
+		case <-s.done:
+			return
+		case <-time.After(20 * time.Second):
+			return
+		}
+		atomic.StoreInt32(&p.Held, 0)
+		conn.SetDeadline(time.Now().Add(5 * time.Second))
 	}
 	me := wire.NewNetAddressIPPort([]byte{127, 0, 0, 1}, 18444, p.services())
 	ver := wire.NewMsgVersion(me, &theirs.AddrMe, uint64(0x1000+p.Idx)<<20|uint64(atomic.LoadInt32(&p.Sessions)), p.startHeight())
